@@ -477,8 +477,9 @@ def run_check(prop, tier, replay=None):
     ev["assumptions"] = getattr(mod, "ASSUMPTIONS", [])
     ev["violations"] = len(violations)
     ev["wall_s"] = round(time.time() - t0, 2)
-    (VERIF / "evidence").mkdir(exist_ok=True)
-    json.dump(ev, open(VERIF / "evidence" / (prop + ".json"), "w"), indent=1)
+    evdir = Path(os.environ.get("VERIF_EVIDENCE_DIR", str(VERIF / "evidence")))     # redirected when checks are run against seeded changes
+    evdir.mkdir(parents=True, exist_ok=True)
+    json.dump(ev, open(evdir / (prop + ".json"), "w"), indent=1)
     log("[%s %s] proof_ok=%s obligations=%d/%d cases=%d nontrivial=%d disagreements=%d violations=%d known=%s %.1fs" % (
         prop, tier, proof["ok"], proof["discharged"], proof["obligations"], n_eval, len(nontrivial), n_disagree, len(violations), known_hits, time.time() - t0))
     log("  outcomes: %s" % json.dumps(stats["outcomes"], sort_keys=True))
